@@ -62,6 +62,10 @@ def run_link(case):
             # ---- negotiation
             host_safelink = False
             nego = list(case['nego'])
+            if not case['peer_supports']:
+                # a peer without safelink may answer the negotiation frame with ordinary downlink traffic
+                for k in range(case.get('pre_queue', 0)):
+                    peer.queue.append(bytes([0x00, 0x41 + k, 0x0a]))
             for i in range(10):
                 frame = dongle.next_tx()
                 if frame != b'\xff\x05\x01':
@@ -205,7 +209,8 @@ def random_case(draw):
     N = draw(st.sampled_from([100, 100, 1, 2, 3, 4, 5, 6]))
     n = draw(st.sampled_from([3, 8, 20, 40, 120])) if N == 100 else draw(st.integers(1, 14))
     steps = draw(st.lists(_step, min_size=1, max_size=n))
-    return {'N': N, 'nego': nego, 'peer_supports': supports, 'steps': steps, 'style': draw(st.integers(0, 3))}
+    return {'N': N, 'nego': nego, 'peer_supports': supports, 'steps': steps, 'style': draw(st.integers(0, 3)),
+            'pre_queue': draw(st.sampled_from([0, 1, 2, 10]))}
 
 
 def subchecks(tier):
